@@ -3,3 +3,5 @@ import OlVerif.Props.C09
 #print axioms OlVerif.C09.templates_prefixed
 #print axioms OlVerif.C09.supply_advances
 #print axioms OlVerif.C09.loop_helpers_reserved
+#print axioms OlVerif.C09.helper_names_distinct
+#print axioms OlVerif.C09.helper_names_prefixed
